@@ -21,7 +21,7 @@ from harness.impl import fstrace
 IMPORTS = "From Coq Require Import NArith.\nFrom Ford Require Import Base.Str Out.FsModel Corr.C19."
 THEOREMS = ["C19_targets_confined", "C19_page_locations_inside", "C19_former_witness_copy_subdir",
             "C19_former_witness_ordered_subpage", "C19_prefix_safe", "C19_prefix_safe_eq",
-            "C19_op_local", "C19_refusal", "C19_refusal_exact", "C19_no_source_deleted",
+            "C19_op_local", "C19_copies_are_not_links", "C19_refusal", "C19_refusal_exact", "C19_no_source_deleted",
             "C19_discovered_sources_kept", "C19_out_clean"]
 PKG = "<ford>"
 
@@ -67,8 +67,17 @@ def file_hash(p):
 
 
 def snapshot(root):
-    """{components: (kind, content hash | link target | '', mode, mtime_ns)}, symlinks not followed;
-    for a symlink to a regular file the hash of the target is kept as 5th element"""
+    """{components: (kind, content hash | link text | '', mode, mtime_ns)}, symlinks not followed;
+    a symlink entry also carries where it leads (os.path.realpath, as components below root, also
+    when the target is missing) and whether that is a regular file"""
+    rootreal = os.path.realpath(root)
+
+    def below(p):
+        if p == rootreal:
+            return ()
+        if p.startswith(rootreal + "/"):
+            return tuple(p[len(rootreal) + 1:].split("/"))
+        return tuple(["<abs>"] + [c for c in p.split("/") if c])
     snap = {(): ("d", "", stat.S_IMODE(os.lstat(root).st_mode), 0)}
 
     def walk(d, rel):
@@ -80,8 +89,7 @@ def snapshot(root):
             mode = stat.S_IMODE(st.st_mode)
             if stat.S_ISLNK(st.st_mode):
                 tgt = os.readlink(e.path)
-                h = file_hash(e.path) if os.path.isfile(e.path) else None
-                snap[key] = ("l", tgt, mode, 0, h)
+                snap[key] = ("l", tgt, mode, 0, below(os.path.realpath(e.path)), os.path.isfile(e.path))
             elif stat.S_ISDIR(st.st_mode):
                 snap[key] = ("d", "", mode, 0)
                 walk(e.path, key)
@@ -155,8 +163,8 @@ def node_entries(snap, ids, create):
             out[key] = "Dir"
         elif e[0] == "f":
             out[key] = f"File {ids.cid(e[1], create)}"
-        else:   # symlink: to a regular file = that file's content; otherwise an opaque entry
-            out[key] = f"File {ids.cid(e[4] if e[4] else 'link:' + e[1], create)}"
+        else:
+            out[key] = f"(Link {coq_path(e[4])})"
     return out
 
 
@@ -450,7 +458,7 @@ class Cases:
             return [], None
         exts = set(settings.extensions) | set(settings.fixed_extensions) | set(settings.extra_filetypes.keys())
         cands = [k for k, e in pre.items()
-                 if k and (e[0] == "f" or (e[0] == "l" and e[4])) and "." in k[-1]
+                 if k and (e[0] == "f" or (e[0] == "l" and e[5])) and "." in k[-1]
                  and k[-1].rsplit(".", 1)[1] in exts]
         found = [sbx.canon.comps(os.path.normpath(str(f.path))) for f in docs.project.allfiles]
         return cands, found
